@@ -20,8 +20,14 @@ RULE = ('paths are lists of components drawn from weighted classes (1, 2, 3 char
         'names for relname/buildpath additionally contain . .. and empty pieces. A case is non-trivial when some '
         'component has at most 2 characters, a dot, a blank, a tilde, a colon, or equals PAR, or the path leaves the '
         'parent of the directory; distinct by its exact text. The direct oracle enumerates every path with 1-3 '
-        '(thorough: 1-4) components over a 9-name alphabet (all 1- and 2-character classes included) per directory.')
-TRUSTED = ('Path objects are built from component lists by the real constructor and read back with .suffix/.root; the '
+        '(thorough: 1-4) components over a 9-name alphabet (all 1- and 2-character classes included) per directory. '
+        'Scripts failing part-way: a caller script (depth 0-2) wraps submodule() of 1-2 scripts that declare 0-2 targets '
+        '(half of them named and sourced like the caller\'s) and then fail in one of six ways, and declares 1-2 targets '
+        'afterwards; the reference is the same script without the call. Half of the system-level projects carry such a '
+        'component and are configured twice (with / without the call).')
+TRUSTED = ('scripts failing part-way: the reference is a run of the same caller script (same real builtins / same real configure) in '
+           'which submodule() is never called; Makefile rules are read with a line-based reader (makefile_rules in harness/c05.py)',
+           'Path objects are built from component lists by the real constructor and read back with .suffix/.root; the '
            'path algebra itself (normpath, expanduser, splitdrive) is the subject of C12, here only its use',
            'the pre-fix regular expression (^|/)..(?=/|$) is validated against the model variant fixed=false by '
            'running Python re.sub on it inside the harness (it no longer exists in /repo since 7c2d988)',
